@@ -39,118 +39,13 @@ COBS_IDX = "external contract cobs::EncoderState: the index handed out is the po
 
 
 def check_slice(run_, F, pc):
-    fns = {f.name + "/" + (f.impl_trait or "-").split("::")[-1]: f for f in glue.fns_of_group(pc, "ser_slice")}
-    eng = lambda: sym.Engine(F, max_visits=2)
-    for nm, nbytes in (("try_push/Flavor", None), ("try_extend/Flavor", None)):
-        f = fns.get(nm)
-        if not f:
-            run_.bad("G", "ser::Slice::" + nm, "method not found")
-            continue
-        s = ("P", ("param", 1, f.locals[1]["ty"]))
-        cur, end, start = (("init", ("F", s, x)) for x in ("cursor", "end", "start"))
-        n = C(1, "usize") if nm.startswith("try_push") else ("len", ("param", 2, f.locals[2]["ty"]))
-        probs = []
-        oks = errs = 0
-        for p in eng().run(f):
-            if p.status != "return":
-                probs.append("a path ends in %s" % p.status)
-                continue
-            wr = [e for e in p.events if e["k"] == "write"]
-            if p.ret[0] == "agg" and p.ret[3] == "Err":
-                errs += 1
-                if tbl.error_variant(F, p.ret) != "SerializeBufferFull":
-                    probs.append("full buffer returns %s, expected Err(SerializeBufferFull)" % sym.show(p.ret))
-                if wr or [e for e in tbl.residual_calls(p) if "write" in e["key"] or "copy" in e["key"]]:
-                    probs.append("something is written on the error path")
-                g = grd.check_consume(p, cur, end, n, False, start)
-                if g:
-                    probs.append(g)
-            elif p.ret[0] == "agg" and p.ret[3] == "Ok":
-                oks += 1
-                g = grd.check_consume(p, cur, end, n, True, start)
-                if g:
-                    probs.append(g)
-                calls = tbl.residual_calls(p)
-                if nm.startswith("try_push"):
-                    w = [e for e in calls if e["key"].endswith("mut_ptr::<impl *mut T>::write")]
-                    raw = [e for e in p.events if e["k"] == "rawderef" and e["rw"] == "w"]
-                    okw = (len(w) == 1 and norm(w[0]["args"][0]) == cur and norm(w[0]["args"][1]) == ("param", 2, "u8")) or \
-                          (len(raw) == 1 and norm(raw[0]["ptr"]) == cur)
-                    if not okw:
-                        probs.append("the byte is not written at the cursor")
-                else:
-                    cp = [e for e in calls if e["key"].endswith("ptr::copy_nonoverlapping")] + \
-                         [e for e in p.events if e["k"] == "intrinsic" and e["name"] == "copy_nonoverlapping"]
-                    b = ("param", 2, f.locals[2]["ty"])
-                    okc = False
-                    if len(cp) == 1:
-                        a = [norm(x) for x in cp[0]["args"]]
-                        okc = lin.atom_of(a[0]) == ("pure", "as_ptr", (b,)) and a[1] == cur and a[2] == norm(n)
-                    if not okc:
-                        probs.append("the block is not copied from the input to the cursor with its own length")
-                if len(wr) != 1 or wr[0]["loc"] != ("F", s, "cursor"):
-                    probs.append("cursor not advanced exactly once")
-                else:
-                    a = grd.check_advance(p, wr[0]["val"], cur, end, n)
-                    if a:
-                        probs.append(a)
-            else:
-                probs.append("unexpected return %s" % sym.show(p.ret))
-        if oks != 1 or errs != 1:
-            probs.append("expected one Ok and one Err path, found %d/%d" % (oks, errs))
-        run_.check(not probs, "G", "ser::Slice::" + nm.split("/")[0], probs[0] if probs else "error iff it does not fit; write at cursor; cursor += n", f.where(), found=probs)
-    f = fns.get("finalize/Flavor")
-    if f:
-        ls = summ.lines(summ.summarize(F, f))
-        want = ["if always: #1 = std::slice::from_raw_parts_mut(self.start, Sub(addr(self.cursor), addr(self.start))) => Result::Ok(#1)"]
-        run_.check(ls == want, "F", "ser::Slice::finalize", "finalize must return the front of the buffer [start, cursor)", f.where(), expected=want, found=ls)
-    else:
-        run_.bad("F", "ser::Slice::finalize", "method not found")
-    f = fns.get("new/-")
-    if f:
-        ps = eng().run(f)
-        probs = []
-        if len(ps) == 1 and ps[0].ret[0] == "agg":
-            fl = dict(zip(ps[0].ret[4], ps[0].ret[5]))
-            b = ("param", 1, f.locals[1]["ty"])
-            for x in ("start", "cursor"):
-                if lin.atom_of(norm(fl.get(x))) != ("pure", "as_mut_ptr", (b,)):
-                    probs.append("%s does not start at the buffer's first byte" % x)
-            try:
-                d = lin.ge(norm(fl.get("end")), norm(fl.get("start")))
-                if d.co != {("pure", "len", (b,)): 1} or d.c != 0:
-                    probs.append("end is not start + buf.len()")
-            except Exception as e:
-                probs.append("end not linear in the buffer (%s)" % e)
-        else:
-            probs.append("unexpected shape")
-        run_.check(not probs, "G", "ser::Slice::new", probs[0] if probs else "start=cursor=ptr, end=ptr+len", f.where(), found=probs)
-    # index / index_mut: panic only if idx >= capacity, element at start + idx
-    for nm in ("index/Index", "index_mut/IndexMut"):
-        f = fns.get(nm)
-        if not f:
-            run_.bad("G", "ser::Slice::" + nm, "method not found")
-            continue
-        s = ("P", ("param", 1, f.locals[1]["ty"]))
-        cur, end, start = (("init", ("F", s, x)) for x in ("cursor", "end", "start"))
-        idx = ("param", 2, "usize")
-        probs = []
-        for p in eng().run(f):
-            cap = ("bin", "Sub", end, start, "usize")
-            if p.status == "diverge":
-                if not grd.prove(p.pc, grd.invariant(cur, end, start), lin.ge(idx, cap)):
-                    probs.append("panics for an index that is inside the buffer (bound is not the capacity end - start)")
-            elif p.status == "return":
-                if not grd.prove(p.pc, grd.invariant(cur, end, start), lin.gt(cap, idx)):
-                    probs.append("hands out an element without idx < end - start (out of bounds)")
-                r = norm(p.ret)
-                if not (r[0] == "call" and r[2].endswith("::add") and r[3] == (start, idx)):
-                    probs.append("element is not start + idx")
-            else:
-                probs.append("path ends in %s" % p.status)
-        run_.check(not probs, "G", "ser::Slice::" + nm.split("/")[0], probs[0] if probs else "start[idx] under idx < capacity", f.where(), found=probs)
-    run_.floor("G", 5)
-    run_.floor("F", 1)
+    """C05.G/F: the slice writer against its hand-written specification (rules/handspec.py)"""
+    import handspec
+    ren = glue.renames(F, pc, glue.load2("A"))
+    keys = [k for k in handspec.HAND if k.startswith("<ser::flavors::Slice<")]
+    handspec.check(run_, "G", F, pc, [k for k in keys if not k.endswith("::finalize")],
+                   "slice writer: error iff it does not fit; write at cursor; cursor += n; nothing written on failure", renames=ren)
+    handspec.check(run_, "F", F, pc, [k for k in keys if k.endswith("::finalize")], "output = front of the buffer [start, cursor)", renames=ren)
 
 
 def check_error_mapping(run_, F, pc):
@@ -196,6 +91,18 @@ def discharge_factory(F):
     def discharge(s):
         k = s.key()
         fk = summ.fn_key(s.fn)
+        try:
+            import c04
+            import panlin
+            if panlin.discharged(s.path, s.ev, c04.path_hyps(F, s.path)):
+                return "linear: guards on the path + pointer invariant start <= cursor <= end (LIN)"
+        except Exception:
+            pass
+        if s.kind == "call" and "IndexMut>::index_mut" in s.text and s.ev["args"] and len(s.ev["args"]) == 2:
+            # index handed out by the cobs encoder state (field .0 of a PushResult payload / of EncoderState::finalize's result)
+            ix = norm(s.ev["args"][1])
+            if ix[0] == "getf" and ix[2] == "0" and any(t[0] == "call" and (t[2] or "").startswith("cobs::EncoderState::") for t in sym.subterms(ix)):
+                return COBS_IDX
         if s.kind == "assert:Overflow:Sub" and "ser::flavors::Slice<" in fk and "addr(" in s.text:
             return "invariant: start <= cursor <= end of ser::Slice (established by new, preserved by try_push/try_extend, C05.G)"
         if s.kind == "diverge" and "ser::flavors::Slice<" in fk and "idx < len" in s.text:
@@ -204,10 +111,6 @@ def discharge_factory(F):
             return COBS_IDX
         if "AllocVec as Index" in fk and s.kind == "call":
             return COBS_IDX
-        if "ser::flavors::Cobs<B> as Flavor>" in fk and s.kind == "call" and "IndexMut>::index_mut" in s.text:
-            if s.text.endswith("'0').0)") or s.text.endswith("#1.0)"):
-                return COBS_IDX
-            return None
         if s.kind == "assert:Overflow:Add" and ("Size as Flavor" in fk or "CountWriter" in fk):
             return COUNTER
         return None
@@ -227,15 +130,13 @@ def run(run_, ctx):
     F = ctx.facts("A")
     pc = F.crate("postcard")
     check_slice(run_, F, pc)
+    run_.floor("G", 3)
+    run_.floor("F", 1)
     check_error_mapping(run_, F, pc)
     # Z
-    for f in glue.fns_of_group(pc, "ser_storage"):
-        if (f.impl_self or "") == "ser::flavors::Size" and f.impl_trait == "postcard::ser::flavors::Flavor":
-            ls = summ.lines(summ.summarize(F, f))
-            want = {"try_push": ["if always: *self.size := Add(*self.size, 1) => Result::Ok(())"],
-                    "try_extend": ["if always: *self.size := Add(*self.size, len(arg2)) => Result::Ok(())"],
-                    "finalize": ["if always: - => Result::Ok(self.size)"]}.get(f.name)
-            run_.check(ls == want, "Z", "Size::" + f.name, "size counter must count exactly the bytes offered and write nothing", f.where(), expected=want, found=ls)
+    import handspec
+    handspec.check(run_, "Z", F, pc, [k for k in handspec.HAND if k.startswith("<ser::flavors::Size as Flavor>")],
+                   "size counter must count exactly the bytes offered and write nothing", renames=glue.renames(F, pc, glue.load2("A")))
     run_.floor("Z", 3)
     # P
     fns = []
@@ -247,7 +148,10 @@ def run(run_, ctx):
             fns.append(f)
         elif "collect_str" in f.canon and f.name == "write_str":
             fns.append(f)
-    n = pan.run_sites(run_, "P", F, fns, discharge_factory(F))
+    import summ2
+    import vint
+    roots = [f for f in fns if (glue.specified(f) or "collect_str" in f.canon) and not vint.is_helper(f)]
+    n = pan.run_sites(run_, "P", F, roots, discharge_factory(F), inline=summ2.inline_glue, models=sym.SLICE_MODELS)
     run_.floor("P", 16)
     run_.extra["functions_scanned_for_panic_sites"] = len(fns)
     # varint writers / zig-zag: panic freedom is part of their BIT proof
